@@ -60,4 +60,49 @@ mod k {
     fn c03_mirror_y_5() {
         mirror_y_n(5);
     }
+
+    // mirror_y of a polygon without vertices is the empty polygon (a damaged file can leave a space without vertices)
+    #[kani::proof]
+    #[kani::unwind(3)]
+    fn c03_mirror_y_0() {
+        let m = Polygon(Vec::new()).mirror_y();
+        assert!(m.0.is_empty(), "C03.mirror.empty");
+    }
+
+    // C03.edge_vertices: "V<k>" names the side from vertex k to vertex k+1 (cyclically) for 1 <= k <= n; every other
+    // name (no V prefix, not a number, 0, beyond n) gives None. Never panics (C19). Symbolic coordinates, concrete names.
+    fn edge_vertices_n(n: usize) {
+        let mut v = Vec::with_capacity(n);
+        let mut i = 0;
+        while i < n {
+            v.push(point![any_finite(), any_finite()]);
+            i += 1;
+        }
+        let p = Polygon(v.clone());
+        let names: [(&str, usize); 9] = [("V1", 1), ("V2", 2), ("V3", 3), ("V4", 4), ("V5", 5), ("V0", 0), ("BOTTOM", 0), ("V", 0), ("Vx", 0)];
+        let which: usize = kani::any();
+        kani::assume(which < 9);
+        let (name, k) = names[which];
+        kani::cover!(n == 0 || k == n, "last vertex reachable");
+        match p.edge_vertices(name) {
+            Some([a, b]) => {
+                assert!(k >= 1 && k <= n, "C03.edge_vertices.some_only_for_existing_vertex");
+                assert!(a.x == v[k - 1].x && a.y == v[k - 1].y, "C03.edge_vertices.start");
+                assert!(b.x == v[k % n].x && b.y == v[k % n].y, "C03.edge_vertices.end_cyclic");
+            }
+            None => assert!(k == 0 || k > n, "C03.edge_vertices.none_only_for_unknown_vertex"),
+        }
+    }
+
+    #[kani::proof]
+    #[kani::unwind(12)]
+    fn c03_edge_vertices_0() {
+        edge_vertices_n(0);
+    }
+
+    #[kani::proof]
+    #[kani::unwind(12)]
+    fn c03_edge_vertices_4() {
+        edge_vertices_n(4);
+    }
 }
